@@ -16,20 +16,23 @@ import (
 
 	"github.com/CloudyKit/jet/v6"
 	"verifh/internal/fw"
+	"verifh/internal/rec"
 	"verifh/internal/tgen"
 )
 
 // C02: parsing is total.
 
 type c02case struct {
-	Class   string            `json:"class"`
-	Delims  string            `json:"delims"`
-	Entry   string            `json:"entry"` // parse|get
-	Files   map[string]string `json:"files"`
-	Name    string            `json:"name"`
-	Src     string            `json:"source"`
-	MustErr bool              `json:"must_error,omitempty"`
-	Cyclic  bool              `json:"cyclic,omitempty"`
+	Class    string            `json:"class"`
+	Delims   string            `json:"delims"`
+	Entry    string            `json:"entry"` // parse|get
+	Files    map[string]string `json:"files"`
+	Name     string            `json:"name"`
+	Src      string            `json:"source"`
+	MustErr  bool              `json:"must_error,omitempty"`
+	Cyclic   bool              `json:"cyclic,omitempty"`
+	OpenFail string            `json:"open_fails,omitempty"` // path whose Open fails although Exists is true
+	ReadFail string            `json:"read_fails,omitempty"` // path whose reader fails after a few bytes
 }
 
 var c02tokens = []string{
@@ -234,7 +237,26 @@ func c02build(c *fw.Ctx, idx int) c02case {
 		cs.Class = "refs"
 		cs.Entry = "get"
 		hdr := func(kind, name string) string { return d.L + kind + ` "` + name + `"` + d.R }
-		switch m := r.Intn(9); m {
+		switch m := r.Intn(12); m {
+		case 9: // loader faults: Exists says yes, Open fails / the reader fails: an error, never a crash, no goroutine left
+			cs.Src = base
+			cs.OpenFail = "/t.jet"
+			cs.MustErr = true
+			cs.Class = "refs-open-fails"
+		case 10:
+			cs.Src = hdr([]string{"extends", "import"}[r.Intn(2)], "/base.jet") + base
+			cs.OpenFail = "/base.jet"
+			cs.MustErr = true
+			cs.Class = "refs-dependency-open-fails"
+		case 11:
+			cs.Src = hdr([]string{"extends", "import"}[r.Intn(2)], "/lib.jet") + base
+			if r.Intn(2) == 0 {
+				cs.ReadFail = "/lib.jet"
+			} else {
+				cs.ReadFail = "/t.jet"
+			}
+			cs.MustErr = true
+			cs.Class = "refs-read-fails"
 		case 0:
 			cs.Src = hdr("extends", "/base.jet") + base
 		case 1:
@@ -316,7 +338,18 @@ func c02run(c *fw.Ctx, idx int) {
 	for k, v := range cs.Files {
 		loader.Set(k, v)
 	}
-	set := jet.NewSet(loader, d.opts()...)
+	var ld jet.Loader = loader
+	if cs.OpenFail != "" || cs.ReadFail != "" {
+		rl := rec.NewLoader(loader)
+		if cs.OpenFail != "" {
+			rl.OpenErr[cs.OpenFail] = true
+		}
+		if cs.ReadFail != "" {
+			rl.ReadErrAfter[cs.ReadFail] = 3
+		}
+		ld = rl
+	}
+	set := jet.NewSet(ld, d.opts()...)
 	baseline := runtime.NumGoroutine()
 	rounds := 1
 	if cs.Entry == "get" {
